@@ -254,8 +254,8 @@ def oracle_runs(ctx, thorough):
         cases, meta = [], []
         for idx, e in rows:
             L = exprun.lanes(e)
-            for n in lens_fn(L):
-                for cls in CLASSES:
+            for n, guided in exprun.lens_for(e, lens_fn):
+                for cls in (CLASSES[:2] if guided else CLASSES):
                     a, b = make_inputs(g, e, n, cls)
                     cases.append(exprun.case_line(idx, e, "a", None, False, "R", 0, a, b, []))
                     meta.append((e, n, cls, a, b, True))
